@@ -302,6 +302,9 @@ def domain(name, ctx, default, required):
         return ids(n)
     if name in SITE_LIKE:
         return ids(ctx["sites"])
+    if name == "output_dim":
+        # sizes that legitimately scale the work are kept small (-1 wraps to 2**32-1 outputs: honest work, not a defect)
+        return [1, 0, 2, 3, None, "x"]
     if name in INDEX_LIKE:
         base = ids(max(ctx.get("rows", n), 1) if name in ("index", "id_", "key", "row_id", "num_rows") else 3)
         if name in ("index",):
@@ -399,8 +402,8 @@ def methods_of(obj):
     return out, props
 
 
-def call_plans(obj, ctx, mname):
-    """All argument dicts for one method: singles and pairs over boundary-typed parameters."""
+def call_plans(obj, ctx, mname, pairs=True):
+    """All argument dicts for one method: singles and (optionally) pairs over boundary-typed parameters."""
     f = getattr(obj, mname)
     try:
         sig = inspect.signature(f)
@@ -422,7 +425,7 @@ def call_plans(obj, ctx, mname):
             d = dict(base)
             d[name] = v
             plans.append(d)
-    for (n1, d1, r1), (n2, d2, r2) in itertools.combinations(params, 2):
+    for (n1, d1, r1), (n2, d2, r2) in (itertools.combinations(params, 2) if pairs else ()):
         # pairs: skip bool x bool (no boundary content) to keep the space focused
         if n1 in BOOL_LIKE and n2 in BOOL_LIKE:
             continue
@@ -566,28 +569,30 @@ def object_names(tier):
 
 def shards(tier, seed):
     specs = []
+    # argument PAIRS on the two richest tree sequences (quick) / all (thorough); single-parameter sweeps elsewhere
+    heavy = {"ts:ts_full": 24, "ts:ts_noedges": 12} if tier == "quick" else \
+        {"ts:ts_full": 24, "ts:ts_one": 12, "ts:ts_noedges": 12, "ts:ts_empty": 8, "ts:ts_nosamples": 8}
     for name in object_names(tier):
-        specs.append(dict(kind="single", obj=name, _resumable=True, part=0, parts=1))
-    # split the heavy ones by method hash
-    heavy = {"ts:ts_full": 24, "ts:ts_one": 12, "ts:ts_noedges": 8, "ts:ts_empty": 6, "ts:ts_nosamples": 6}
-    specs = [s for s in specs if s["obj"] not in heavy]
-    for name, k in heavy.items():
-        for i in range(k):
-            specs.append(dict(kind="single", obj=name, _resumable=True, part=i, parts=k))
+        if name in heavy:
+            for i in range(heavy[name]):
+                specs.append(dict(kind="single", obj=name, _resumable=True, part=i, parts=heavy[name], pairs=True))
+        else:
+            specs.append(dict(kind="single", obj=name, _resumable=True, part=0, parts=1,
+                              pairs=not name.startswith("ts:")))
     for name in object_names(tier):
         if name.startswith(("tc:", "tree:", "var:", "table:")):
             specs.append(dict(kind="pair", obj=name, _resumable=True, full=(tier == "thorough")))
     return specs
 
 
-def iter_single(objname, part=0, parts=1):
+def iter_single(objname, part=0, parts=1, pairs=True):
     obj, ctx = make_object(objname)
     meths, props = methods_of(obj)
     i = 0
     for k, m in enumerate(meths):
         if k % parts != part:
             continue
-        for _, args in call_plans(obj, ctx, m):
+        for _, args in call_plans(obj, ctx, m, pairs):
             yield i, m, args
             i += 1
     if part == 0:
@@ -605,11 +610,12 @@ def run_shard(spec):
     obj, ctx = make_object(objname)
     cls = type(obj).__name__
     if spec["kind"] == "single":
-        for i, m, args in iter_single(objname, spec["part"], spec["parts"]):
+        for i, m, args in iter_single(objname, spec["part"], spec["parts"], spec.get("pairs", True)):
             if i < skip:
                 continue
             case = {"_i": i, "_key": f"{cls}.{m}", "kind": "single", "obj": objname, "part": spec["part"],
-                    "parts": spec["parts"], "method": m, "args": None if args is None else describe(args)}
+                    "parts": spec["parts"], "pairs": spec.get("pairs", True), "method": m,
+                    "args": None if args is None else describe(args)}
             acc.enter(case)
             if rebuild:
                 obj, ctx = make_object(objname)
@@ -627,7 +633,7 @@ def run_shard(spec):
     else:
         # depth 2: (mutating or failing call ; probe)
         i = 0
-        for _, m, args in iter_single(objname):
+        for _, m, args in iter_single(objname, pairs=bool(spec.get("full"))):
             if args is None:
                 continue
             obj, ctx = make_object(objname)
@@ -638,9 +644,6 @@ def run_shard(spec):
             if st == "bind" or not (st == "exc" or mutating):
                 continue
             pr = probes(obj)
-            if not spec.get("full") and len(args) > 1:
-                # quick tier: pairs of boundary values only for the first call alone
-                pr = pr[:4]
             for (pm, pargs) in pr:
                 if i < skip:
                     i += 1
@@ -668,7 +671,7 @@ def replay(case):
     acc = Acc()
     objname = case["obj"]
     if case["kind"] == "single":
-        for i, m, args in iter_single(objname, case.get("part", 0), case.get("parts", 1)):
+        for i, m, args in iter_single(objname, case.get("part", 0), case.get("parts", 1), case.get("pairs", True)):
             if i == case["_i"]:
                 obj, ctx = make_object(objname)
                 signal.alarm(CALL_TIMEOUT)
